@@ -29,6 +29,29 @@ func quorumUnit(p *core.Program, h *core.Handler) (*ssa.Function, *core.CondAtom
 			}
 		}
 	}
+	// the comparison computed into a value (a verdict field, a flag) and branched on elsewhere
+	for _, fn := range p.Summary(h.Fn).Funcs {
+		var found *core.CondAtom
+		allInstrs(fn, func(in ssa.Instruction) {
+			bo, ok := in.(*ssa.BinOp)
+			if !ok || found != nil {
+				return
+			}
+			switch bo.Op {
+			case token.LSS, token.LEQ, token.GTR, token.GEQ:
+			default:
+				return
+			}
+			if p.ProvAt(bo.X, "", bo).HasParams("storage", ".AttestMinToPass") || p.ProvAt(bo.Y, "", bo).HasParams("storage", ".AttestMinToPass") {
+				ca := p.NormCondValue(bo)
+				ca.If = bo
+				found = ca
+			}
+		})
+		if found != nil {
+			return fn, found
+		}
+	}
 	return nil, nil
 }
 
@@ -37,6 +60,7 @@ func c14(r *core.Run) {
 	r.Explanation = "Static rules over the attestation and report units (the keeper functions holding the quorum comparison, found from storage.MsgAttest / storage.MsgReport): the proof refresh / prover removal and the form deletion lie on every path behind the direct comparison count >= Param(AttestMinToPass) and behind the signer-matched flag; the counter is incremented by one only under the element's Complete flag inside the form loop; the flag and Complete:=true are set only under Eq(element.Provider, signer); acting paths always delete the loaded form; forms are built from the filtered active-provider list behind the size check."
 	r.Assumptions = []string{T1, T4, T6}
 	r.NotDecided = []string{"distinctness of the named providers among themselves (the stored active-provider list is trusted to hold one entry per provider)", "shuffle quality"}
+	r.Rule("C14/R9", "a form is found only under the deal it was opened for: every store-key builder of the storage module (attestation and report forms among them) writes each of its parameters — prover, merkle, owner, start — into the key exactly once, as it is or hex / decimal formatted")
 	r.Rule("C14/R8", "the quorum and form-size parameters are the governance-set ones: each key of the storage ParamSetPairs is bound to the Params field it names (a swapped binding makes a by-key change of AttestMinToPass alter the form size and leave the quorum unchanged)")
 	r.Rule("C14/R7", "the proof-holding test of form candidates (and every other store scan in the storage module) uses prefix iterators or text-safe ranges: no open-ended range used as an existence test, no decimal range bounds")
 	r.Rule("C14/R1", "quorum gate: every acting effect (proof refresh, prover removal, form deletion) is on all paths behind Cmp(count >= Param(AttestMinToPass)) with direct operands and behind Flag(signer matched)=true; all effects behind Found(form)=true")
@@ -89,7 +113,7 @@ func c14(r *core.Run) {
 		isCount := func(pr core.Prov) bool { return true }
 		_ = isCount
 		quorum := func(ca *core.CondAtom, truth bool) bool {
-			if ca.If != qa.If {
+			if !(ca.If == qa.If || (ca.Kind == "cmp" && ca.X == qa.X && ca.Y == qa.Y && ca.Op == qa.Op)) {
 				return false
 			}
 			op := ca.Op
@@ -114,6 +138,57 @@ func c14(r *core.Run) {
 			return false
 		}
 		foundForm := foundGuard(p, us.formPrefix, true)
+		// the function holding the acting effects: the one with the comparison, or — when that one only decides — the
+		// sibling that acts on its verdict; `top` is the function whose executions contain both
+		isActing := func(e *core.Effect) bool {
+			for _, o := range e.Store {
+				if !(o.Kind == "Set" && o.Module+"/"+o.Prefix == us.formPrefix) {
+					return true
+				}
+			}
+			return len(e.Bank) > 0
+		}
+		cmpFn := fn
+		top := fn
+		nAct := 0
+		for _, e := range p.Effects(fn) {
+			if isActing(e) {
+				nAct++
+			}
+		}
+		if nAct == 0 {
+			for _, cand := range p.Summary(h.Fn).Funcs {
+				if cand == fn || !callsDirectly(p, cand, fn) {
+					continue
+				}
+				// cand calls the deciding function; the acting sibling is another callee of cand
+				for _, sib := range p.Summary(h.Fn).Funcs {
+					if sib == fn || sib == cand || !callsDirectly(p, cand, sib) || isAccessorFn(p, sib) {
+						continue
+					}
+					k := 0
+					for _, e := range p.Effects(sib) {
+						if isActing(e) {
+							k++
+						}
+					}
+					if k >= 2 {
+						fn, top = sib, cand
+					}
+				}
+			}
+		}
+		_ = cmpFn
+		guardedFromTop := func(e *core.Effect, g core.GuardMatch) bool {
+			if top == fn {
+				return len(p.FindUnguarded(fn, []*core.Effect{e}, g, true)) == 0
+			}
+			if len(p.FindUnguarded(fn, []*core.Effect{e}, g, true)) == 0 {
+				return true
+			}
+			guarded, ok := p.AbsGuarded(top, e.Instr, g, core.AbsBefore)
+			return ok && guarded
+		}
 		var acting, all []*core.Effect
 		for _, e := range p.Effects(fn) {
 			all = append(all, e)
@@ -150,11 +225,17 @@ func c14(r *core.Run) {
 			m    core.GuardMatch
 			effs []*core.Effect
 		}{{"quorum-gate", quorum, acting}, {"signer-matched-flag", flagG, all}, {"form-found", foundForm, all}} {
-			u := p.FindUnguarded(fn, g.effs, g.m, true)
-			if len(u) == 0 {
+			var bad *core.Effect
+			for _, e := range g.effs {
+				if !guardedFromTop(e, g.m) {
+					bad = e
+					break
+				}
+			}
+			if bad == nil {
 				r.Ok("C14/R1", us.key+":"+g.name, p.Pos(fn.Pos()), fmt.Sprintf("%d effects behind %s on all paths", len(g.effs), g.name))
 			} else {
-				r.Violation("C14/R1", us.key+":"+g.name, p.InstrPos(u[0].Effect.Instr), "an effect is reachable without passing "+g.name+": "+p.DescribeEffect(u[0].Effect))
+				r.Violation("C14/R1", us.key+":"+g.name, p.InstrPos(bad.Instr), "an effect is reachable without passing "+g.name+": "+p.DescribeEffect(bad))
 			}
 		}
 		// ---- R5 the acting effect concerns the form's prover, never the signer
@@ -237,23 +318,39 @@ func c14(r *core.Run) {
 			r.Check(bad == "", "C14/R3", us.key+":form-consumed", p.InstrPos(del.Instr), "every acting path deletes the form", "an acting effect can complete without the form being deleted: "+bad)
 			// key args equal to the getter's
 			var getter *ssa.Call
-			allInstrs(fn, func(in ssa.Instruction) {
-				if c, ok := in.(*ssa.Call); ok {
-					for _, cal := range p.Callees(c) {
-						if gi := p.StoreGetter(cal); gi != nil && gi.Module+"/"+gi.Prefix == us.formPrefix {
-							getter = c
+			for _, gf := range []*ssa.Function{fn, cmpFn} {
+				allInstrs(gf, func(in ssa.Instruction) {
+					if c, ok := in.(*ssa.Call); ok {
+						for _, cal := range p.Callees(c) {
+							if gi := p.StoreGetter(cal); gi != nil && gi.Module+"/"+gi.Prefix == us.formPrefix {
+								getter = c
+							}
 						}
 					}
-				}
-			})
+				})
+			}
 			if dc, ok := del.Instr.(ssa.CallInstruction); ok && getter != nil {
 				ga, da := dataArgs(getter), dataArgs(dc)
+				// a delete performed on the store itself: its key is the key builder's call, compare that call's arguments
+				if len(da) == 1 && len(ga) > 1 {
+					kv := da[0]
+					for {
+						if cv, isCv := kv.(*ssa.Convert); isCv {
+							kv = cv.X
+							continue
+						}
+						break
+					}
+					if kc, isCall := kv.(*ssa.Call); isCall && len(p.Callees(kc)) == 1 {
+						da = dataArgs(kc)
+					}
+				}
 				same := len(ga) == len(da)
 				for i := 0; same && i < len(ga); i++ {
 					a := strings.Join(p.ResolveToEntry(p.ProvAt(ga[i], "", getter), h.Fn).Strings(), "|")
 					b := strings.Join(p.ResolveToEntry(p.ProvAt(da[i], "", dc), h.Fn).Strings(), "|")
 					// the delete may use the loaded form's own key fields
-					fb := p.ProvAt(da[i], "", dc)
+					fb := p.ResolveToEntry(p.ProvAt(da[i], "", dc), h.Fn)
 					if a != b && !(len(fb.DataAtoms()) == 1 && fb.DataAtoms()[0].Kind == "store" && fb.DataAtoms()[0].Name == us.formPrefix) {
 						same = false
 					}
@@ -266,6 +363,7 @@ func c14(r *core.Run) {
 
 	// ---- R8 parameter keys address the fields they name
 	paramPairsConsistent(r, "C14/R8", "storage")
+	r.Floor("C14/R9", keyBuildersFaithful(r, "C14/R9", "storage"), 8, "storage key builders")
 	// ---- R7 store scans behind the candidate list
 	iteratorHygiene(r, "C14/R7", moduleFuncs(p, "storage"))
 	// ---- R6 a form never names the prover it concerns: the candidate filter is reflexive
